@@ -20,13 +20,13 @@ rm -rf "$VERIF_SRC"; mkdir -p "$VERIF_SRC"
 rsync -a --exclude target --exclude .git --exclude replays --exclude evidence --exclude 'target.build.log*' "$ROOT/" "$VERIF_SRC/"
 run_breaking() { # name patch property
     if [ -n "$ONLY" ] && [ "$ONLY" != "$3" ]; then return; fi
-    line=$("$ROOT/scripts/try_isolated.sh" "$SLOT" "$2" "$3" breaking 2>&1 | grep -E '^(CAUGHT|MISSED)' | head -1 | cut -c1-400)
+    line=$("$ROOT/scripts/try_isolated.sh" "$SLOT" "$2" "$3" breaking 2>&1 | grep -aE '^(CAUGHT|MISSED)' | head -1 | cut -c1-400)
     verdict=${line%% *}; rest=${line#* }
     echo "${verdict:-MISSED} $1 $rest" | tee -a "$OUT"
 }
 run_neutral() { # name patch
     if [ -n "$ONLY" ]; then return; fi
-    line=$("$ROOT/scripts/try_isolated.sh" "$SLOT" "$2" C15 neutral 2>&1 | grep -E '^(QUIET|ALARM)' | head -1)
+    line=$("$ROOT/scripts/try_isolated.sh" "$SLOT" "$2" C15 neutral 2>&1 | grep -aE '^(QUIET|ALARM)' | head -1)
     verdict=${line%% *}; rest=${line#* }
     echo "${verdict:-ALARM} $1 (neutral change) $rest" | tee -a "$OUT"
 }
@@ -51,7 +51,7 @@ for d in "$ROOT"/neutral/*/; do
 done
 # the unchanged tree
 if [ -z "$ONLY" ]; then
-    line=$("$ROOT/scripts/try_isolated.sh" "$SLOT" - C15 neutral 2>&1 | grep -E '^(QUIET|ALARM)' | head -1)
+    line=$("$ROOT/scripts/try_isolated.sh" "$SLOT" - C15 neutral 2>&1 | grep -aE '^(QUIET|ALARM)' | head -1)
     echo "clean tree: $line" | tee -a "$OUT"
 fi
 "$ROOT/scripts/try_isolated.sh" "$SLOT" clean
